@@ -21,10 +21,17 @@ Proof.
   intros Hq Hl. unfold k_dequant, dequant.
   assert (Hp : 0 <= q * (2 * Z.abs l + 1) <= 255 * 65535) by nia.
   assert (Hs : forall z, -16711426 <= z <= 16711425 -> -16711426 <= Z.sgn l * z <= 16711426) by (intros; lia).
-  do 4 kstepi. kstepi.
-  destruct (Z.rem q 2 =? 1); kstepi;
-    (match goal with |- context [mul_c I32 (Z.sgn l) ?z] => pose proof (Hs z ltac:(lia)) end);
-    kstepi; f_equal; apply wrap_id; krange.
+  (* the checked steps in whatever order the source has them; the signed product needs its nonlinear range fact *)
+  repeat (first
+    [ progress (cbv zeta)
+    | match goal with |- context [mul_c I32 (Z.sgn l) ?z] =>
+        lazymatch goal with
+        | _ : _ <= Z.sgn l * z <= _ |- _ => fail
+        | _ => pose proof (Hs z ltac:(lia))
+        end end
+    | kstepi
+    | kcase ]);
+  f_equal; rewrite wrap_id by (unfold clamp; krange); unfold clamp; lia.
 Qed.
 
 Lemma bridge_k_quant_update q dq :
